@@ -14,6 +14,11 @@ def gen_case(rng, i):
     nrec = int(rng.integers(1, 8)) if fam != "az" else int(rng.integers(2, 4))    # the azimuthal path always ends at n = 2**15: few, short records
     ndt = int(rng.integers(1, 4))
     dts = [float(x) for x in rng.choice(pg.DTS, ndt, replace=False)]
+    if ndt >= 2 and rng.random() < 0.25:
+        # two DIFFERENT time steps that are close to each other (4000 Hz next to 4096 Hz; a nominal next to a measured rate): distinct
+        # floats are distinct time steps for the grouping, for both keeping policies and for the Nyquist guard
+        a, b = [(1 / 4000, 1 / 4096), (0.01, 0.010000001), (1 / 500, 1 / 500 + 4e-6), (1 / 4096, 1 / 4000)][int(rng.integers(0, 4))]
+        dts[0], dts[1] = float(a), float(b)
     arrangement = [dts[int(rng.integers(0, ndt))] for _ in range(nrec)]
     # sensors of one list may be deployed at different angles (read(..., degrees_from_north=[...])): the single-azimuth and
     # RotDpp families must resolve the orientation per record
